@@ -40,6 +40,19 @@ pub fn check(path: &str) {
         mc.input_fd = inr[1];
         mc.input_fe = inr[2];
         mc.input_ff = inr[3];
+        if let Some(b) = v.get("bd") {
+            let g = |k: &str| b[k].as_i64().unwrap_or(0);
+            let t = |k: &str| b[k].as_bool().unwrap_or(false);
+            mc.digital_input1 = g("di1") as u8;
+            mc.temp = crate::proj::volt_from_code(g("temp"));
+            mc.analog_input1 = crate::proj::volt_from_code(g("ai1"));
+            mc.analog_input2 = crate::proj::volt_from_code(g("ai2"));
+            mc.jumper1 = t("j1");
+            mc.jumper2 = t("j2");
+            mc.universal_input_output1 = t("uio1");
+            mc.universal_input_output2 = t("uio2");
+            mc.universal_input_output3 = t("uio3");
+        }
         let cfg = RunnerConfigBuilder::default()
             .with_max_cycles(v["n"].as_u64().unwrap() as usize)
             .with_program(&src)
